@@ -593,13 +593,24 @@ Definition read_d (d : dirst) (p : ptr) : option bytes :=
   end.
 Definition read_ptr (s : st) (p : ptr) : option bytes := read_d (s_fs s) p.
 
+(* index.refresh: DB.newReader re-reads the pointer of the domain (same time range, same
+   file) from the index after it acquired the file reader *)
+Definition refresh (ps : list ptr) (p : ptr) : ptr :=
+  let '(i, ok) := usearch ps (ptr_tr p) in
+  if ok then
+    match getp ps i with
+    | Some cur => if tr_eqb (ptr_tr cur) (ptr_tr p) && N.eqb (p_file cur) (p_file p) then cur else p
+    | None => p
+    end
+  else p.
+
 Fixpoint list_from (fuel : nat) (s : st) (pos : Z) : list (Z * Z * option bytes) :=
   match fuel with
   | O => []
   | S f =>
       match reload (s_ptrs s) pos with
       | None => []
-      | Some p => (p_s p, p_e p, read_ptr s p) :: list_from f s (pos + 1)
+      | Some p => (p_s p, p_e p, read_ptr s (refresh (s_ptrs s) p)) :: list_from f s (pos + 1)
       end
   end.
 
@@ -644,7 +655,7 @@ Definition win_step (w : win) (o : fsop) : win :=
   match o with
   | OMkdir => mkWin true false 0 false false false
   | ORenameDir => win0
-  | ORename FMetaTmp FMeta => mkWin (wi_dir w) true (wi_idxlen w) (wi_trunc w) (wi_gc w) false
+  | ORename _ FMeta | OCreate FMeta => mkWin (wi_dir w) true (wi_idxlen w) (wi_trunc w) (wi_gc w) false
   | OTrunc FIndex n => mkWin (wi_dir w) (wi_meta w) n (wi_trunc w || negb (N.eqb n (wi_idxlen w))) (wi_gc w) false
   | OWrite _ FIndex off bs =>
       mkWin (wi_dir w) (wi_meta w) (N.max (wi_idxlen w) (off + N.of_nat (length bs))) false false false
